@@ -56,6 +56,15 @@ PROPS = {
         claim="Theorems for all pairs of texts and all flag combinations: matrix_eq_rec (every cell of the flat matrix, filled with the code's candidate order and first-minimum tie-breaking, equals the recursive reference recurrence osaR), distance_le_script + distance_attained (the value is the minimum cost over all edit scripts: Levenshtein without swaps, optimal string alignment with, whitespace never substituted/transposed under spaces_insert_delete_only), distance_eq_zero_iff, normalized_range (<= longer length without sid; two empty strings give 0), normalized_range_sid_partial + sid_counterexample (F12), prefix_min. operations(): modelled with tie-breaking and backtrace, compared exactly with the implementation (script equality) and checked by the oracle (apply script = b, length = distance, sorted); the script theorem itself is not yet proved (partial).",
         note="Backtrace/script correctness is covered by exact correspondence + oracle only (no theorem yet). Grapheme clusters come from the real CharString. f64 division compared against the exact rational with tolerance. F12 is an open known finding; D1 (NaN for two empty strings) was repaired by a fix: commit.",
     ),
+    "C18": dict(
+        anchors=[("src/text.rs", r"pub fn match_words_with\("), ("src/edit.rs", r"pub fn edited_words\(")],
+        rule="texts of 0-12 words over small vocabularies (repeats, case variants incl. final-sigma / dotted-I / sharp-s words), every ASCII whitespace separator, leading/trailing separators; ignore_case on/off; thorough adds all pairs of word sequences of length <= 4 over 4 words",
+        exhaustive={"thorough": "all pairs of word sequences of length <= 4 over {a,b,A,c} (341 x 341) x ignore_case, plus edited_words"},
+        trusted=["str::to_lowercase (the lowercase keys are computed by the real code and sent with the request)", "word splitting by ASCII whitespace is modelled (splitAsciiWs) and compared"],
+        min_nontrivial={"quick": 500, "thorough": 5000},
+        claim="Theorems for all pairs of word sequences: matchWords_ok (the DP with Rust's last-maximum tie-breaking and its backtrace never reach the panic branch; the pairs are strictly increasing in both coordinates, matched words are equal, and their number equals the LCS recurrence), lcs_upper + lcs_attained (the recurrence is the length of a longest common subsequence: upper bound for every common subsequence, attained by one), edited_eq_complement, splitAsciiWs_words. Exact correspondence on the pair list itself (tie-breaking modelled), counts, and edited_words; independent LCS oracle in the harness.",
+        note="Case-insensitive comparison uses lowercase keys supplied by the real str::to_lowercase; 'whitespace-separated' is read as ASCII whitespace (split_ascii_whitespace), which is what the function documents and what its callers (cleaned text) need.",
+    ),
     "C14": dict(
         anchors=[("src/data/preprocessing.rs", r"fn corrupt_whitespace\("), ("src/whitespace.rs", r"pub fn operations\("), ("src/whitespace.rs", r"pub fn repair\(")],
         rule="clean texts (multi-byte, marks) x probabilities {0,.1,.3,.5,.9,1} x seeds; the decision stream is reproduced from ChaCha8Rng::seed_from_u64(seed) by the harness",
